@@ -260,7 +260,7 @@ fn run_one(tw: &TreeWorld, order: &[usize], loading_done: bool, redeliver: bool,
         seen.insert(d);
         let bad = ledger_consistency(w, &n);
         for (clause, detail) in bad.iter() {
-            rep.violate(&keyp(clause), format!("{} after {:?}", detail, trace), json!({"ctx": ctx, "trace": trace, "clause": clause}));
+            rep.violate_inst(&keyp(clause), &format!("{}|{}|{}|{:?}", ctx, variant, clause, trace), format!("{} after {:?}", detail, trace), json!({"ctx": ctx, "trace": trace, "clause": clause}));
         }
         if !bad.is_empty() {
             rep.outcome("inconsistent");
